@@ -23,6 +23,7 @@ META = {
         "ParentId must be the id recorded for the enclosing context's path (absent at the root). Non-trivial = program "
         "with >=2 concurrent branches whose completion order differs between the two schedules, or >=3 invocations; "
         "distinct = (program shape, the two invocation-outcome patterns)."
+        " Plus a stage in which 2-3 user threads issue steps on ONE context (walk/pct schedules, line-level yield points in threading.py): no two operations may share an identifier."
     ),
     "assumptions": ["paths are the interpreter's structural positions; branch contexts are located by (parent path, index from the SDK's branch name)"],
     "budget": {
